@@ -15,6 +15,7 @@ RULE = ("id family in {sequential ints, zero-padded numbers, UUID-like (scattere
         "population under two different salts; reject below p = 1e-9. Non-trivial = every combination whose expected counts are "
         "all >= 50; distinct by (family, offset, salts, weights).")
 RULE += (' Since rounds 6-7: salt pairs that weak fingerprints confuse (Adler-32 / CRC-32 twins, transpositions), long salts differing in one character, a refused deploy before the second salt, grouped targeting rules.')
+RULE += (' Since rounds 14-15: targeting rules that rely on the documented precedence without parentheses.')
 ASSUMPTIONS = [
     "significance 1e-9 per test: expected false-alarm rate per thorough run < 1e-5; deviations below ~1/sqrt(N) are invisible",
     "the two salts of a pair are different non-empty/absent strings that the published scheme maps to different keys",
